@@ -92,7 +92,7 @@ SPEC = {
     "classify": lambda fl: KNOWN_CLASSES.get(fl.get("class")),
     "nontrivial": nontrivial,
     "rule": "(1) every registry gate (39; 4 parameter draws in thorough): is_stabilizer(), matrix(), conjugate() on all 4^k strings and on "
-            "every operand slice of length 0..k+2 != k; (2) 30 written-out nestings + generated nested terms on 1..4 qubits (Kron, "
+            "every operand slice of length 0..k+2 != k; (2) 34 written-out nestings (among them sub-gates that share a description but not the claim) + generated nested terms on 1..4 qubits (Kron, "
             "Composite via add_gate, Loop with 0..3 iterations, depth <= 3; 60% purely Clifford, the rest with T / rotations / C<G> / "
             "named controlled gates injected at 6% or 20% per leaf): the same calls, all 4^k strings; (3) composites of parameterless "
             "named gates rebuilt through Composite::from_string; (4) malformed composites (add_gate validates nothing: arity mismatch, "
@@ -110,7 +110,13 @@ SPEC = {
             "strings; (B) from the 32x32 / 64x64 matrix(): M M^H = 1 and M P = +-P' M. (7) building histories on ONE circuit object: "
             "is_stabilizer_circuit() after Circuit::new and after every building call, optionally one execute in between, then "
             "execute; in half of the histories every earlier gate claims and the LAST call adds a conditional gate that does not; "
-            "(A) vs the model's conjunction over the prefix, (B) vs the conjunction of the implementation's own claims.",
+            "(A) vs the model's conjunction over the prefix, (B) vs the conjunction of the implementation's own claims. "
+            "(8) wide loops: Loop (1-3 iterations, also reached through a Composite on permuted qubits) over Composite bodies on 33, 34, "
+            "40, 64, 65 qubits built from 4-9 Clifford sub-gates on scattered qubits (0, 1, 31, 32, 33, n-33, n-32, n-1, random); on ONE "
+            "gate object ~24 strings in sequence: triples that agree on the last 32 positions and differ before, strings that agree on "
+            "the leading positions and differ within the last 32, repeated strings, the identity, weight-1 strings at both ends, random "
+            "strings; (A) vs the model; (B) without a matrix: the rule of every primitive is read off its documented 2x2/4x4 matrix "
+            "(independent of the generated table) and composed through the body's sub-gates by gather/apply/scatter, iterated.",
     "exhaustive": False,
 }
 
